@@ -227,8 +227,8 @@ AbisQuick4 == AbisCov \cup {Abi(S + E, 2*S + E, 2*S + E, S + E, FALSE)}
 \* PyLong_AsInt only matters where int is narrower than long
 AbisQuick == AbisNamedA(FALSE) \cup {Abi(2*S + E, 2*S + E, 2*S + E, S + E, TRUE), Abi(4*S + E, 4*S + E, 4*S + E, 2*S + E, TRUE)}
 \* every ordering of the widths relative to the digit boundaries, including widths that are exact multiples of S
-AbisSweep == UNION {UNION {{Abi(wl, wll, wc, wi, ai) : wc \in {wl, wll}, wi \in {wl, wl - 1, S + 1} \cap ((S + 1)..wl), ai \in BOOLEAN} :
-                             wll \in {wl, wl + 1, wl + S, 2 * wl}} : wl \in (S + 2)..(4*S + 2)}
+AbisSweep == UNION {UNION {{Abi(wl, wll, wc, wi, ai) : wc \in {wl, wll}, wi \in {wl, S + 1}, ai \in BOOLEAN} :
+                             wll \in {wl, wl + S}} : wl \in (S + 2)..(4*S + 2)}
 Cfg(i, s, k) == [internals |-> i, slots |-> s, chunks |-> k]
 CfgDefault == Cfg(TRUE, TRUE, FALSE)        \* default build
 CfgNoInt   == Cfg(FALSE, TRUE, FALSE)       \* -DCYTHON_USE_PYLONG_INTERNALS=0
@@ -245,7 +245,8 @@ TypesImg == {Ty(x[1], x[2], x[3]) : x \in ImgW \X BOOLEAN \X {"gen", "topy"}} \c
 SszTypes(abis) == {Ty(w, TRUE, p) : w \in {a.wc : a \in abis}, p \in {"ssz", "cssz"}}
 TypesSweepNamed == TypesSweep \cup SszTypes(AbisNamed)
 TypesSweepQuick == TypesSweep \cup SszTypes(AbisCov)
-TypesSweepAll == TypesSweep \cup SszTypes(AbisSweep)
+TypesSweepGen == {Ty(x[1], x[2], "gen") : x \in (2..(5*S + 2)) \X BOOLEAN}
+TypesSweepAll == TypesSweepGen \cup SszTypes(AbisSweep)
 AbisLP64 == {AbiLP64}
 \* a thinner family for the branch-coverage run
 TypesCov == {Ty(x[1], x[2], x[3]) : x \in {2, S + 1, 2*S, 2*S + 1, 3*S, 3*S + 1, 4*S + 1, 5*S + 2} \X BOOLEAN \X {"gen", "topy"}} \cup SszTypes(AbisCov)
